@@ -31,7 +31,7 @@ def handle : Handler := fun op a =>
         ("chunked", jPairs (rlencodeChunked c xs)),
         ("plain", jPairs (rlencode xs)),
         ("lengths", jNats (runLengths xs.length (rlencode xs))),
-        ("impl_valid", Json.bool (validRuns xs runs))]
+        ("impl_valid", Json.bool (runsSpell xs runs)), ("model_valid", Json.bool (runsSpell xs (rlencode xs)))]
   | "C02.index" => some do
       let xs ← getNats a "xs"
       let n ← getNat a "n"
